@@ -279,10 +279,12 @@ inline void emplace_n(T *pos, SizeType n, Args &&...args) {
   if (n == 0) {
     amc::construct_at(pos, std::forward<Args>(args)...);
   } else {
+    // 'args' may refer to an element which is about to be shifted: build the new value first
+    T newEl(std::forward<Args>(args)...);
     shift_right(pos, n);
     destroy_after_shift(pos);
     try {
-      amc::construct_at(pos, std::forward<Args>(args)...);
+      amc::construct_at(pos, std::move(newEl));
     } catch (...) {
       uninitialized_shift_left(pos + 1, n);
       throw;
@@ -305,9 +307,11 @@ inline void insert_n(T *pos, SizeType n, V &&v) {
   if (n == 0) {
     amc::construct_at(pos, std::forward<V>(v));
   } else {
+    // 'v' may refer to an element which is about to be shifted: take its value first
+    T newEl(std::forward<V>(v));
     shift_right(pos, n);
     try {
-      assign_after_shift(pos, std::forward<V>(v));
+      assign_after_shift(pos, std::move(newEl));
     } catch (...) {
       shift_left(pos + 1, n);
       throw;
@@ -1250,8 +1254,10 @@ class VectorImpl : public VectorDestr<T, Alloc, SizeType, WithInlineElements, Gr
       if (nElemsToShift == 0) {
         std::uninitialized_fill_n(pos, count, newV);
       } else {
+        // 'v' may refer to an element which is about to be shifted: take its value first
+        const T valueCopy(newV);
         shift_right(pos, nElemsToShift, count);
-        fill_after_shift(pos, nElemsToShift, count, newV);
+        fill_after_shift(pos, nElemsToShift, count, valueCopy);
       }
       this->setSize(this->size() + count);
     } else {
